@@ -359,7 +359,7 @@ func (c caseA) describe() string {
 	return fmt.Sprintf("ACL grants %v", c.Grants)
 }
 
-var objKeys = []string{"obj1", "a", "b", "ab", "dir/a", "dir/b", "dir/obj2", "newkey", "mp1"}
+var objKeys = []string{"obj1", "a", "b", "ab", "dir/a", "dir/b", "dir/obj2", "newkey", "mp1", "dir/", "dirobj/", "dir/newdir/"}
 
 func stmtGen() *rapid.Generator[model.Statement] {
 	return rapid.Custom(func(t *rapid.T) model.Statement {
@@ -374,7 +374,7 @@ func stmtGen() *rapid.Generator[model.Statement] {
 		actGen := rapid.OneOf(rapid.SampledFrom(all), rapid.SampledFrom(all), rapid.Just("s3:*"),
 			rapid.SampledFrom([]string{"s3:Get*", "s3:Put*", "s3:Delete*", "s3:List*", "s3:GetObject*", "s3:PutObject*", "s3:PutBucket*"}))
 		s.Actions = rapid.SliceOfNDistinct(actGen, 1, 4, rapid.ID[string]).Draw(t, "actions")
-		objRes := rapid.OneOf(rapid.Just(bktA+"/*"), rapid.SampledFrom([]string{bktA + "/a", bktA + "/a*", bktA + "/dir/*", bktA + "/?", bktA + "/obj1", bktA + "/*b", bktA + "/dir/a", bktA + "/new*", bktA + "/mp1", bktA + "/??", bktA + "/ob?1*", bktA + "/d?r/*", bktA + "/?bj*", bktA + "/*1", bktA + "/n?sted/*"}))
+		objRes := rapid.OneOf(rapid.Just(bktA+"/*"), rapid.SampledFrom([]string{bktA + "/a", bktA + "/a*", bktA + "/dir/*", bktA + "/?", bktA + "/obj1", bktA + "/*b", bktA + "/dir/a", bktA + "/new*", bktA + "/mp1", bktA + "/??", bktA + "/ob?1*", bktA + "/d?r/*", bktA + "/?bj*", bktA + "/*1", bktA + "/n?sted/*", bktA + "/dirobj/*", bktA + "/dir/newdir/*"}))
 		// always both kinds, so that the document is valid whatever the action kinds are
 		s.Resources = append([]string{bktA}, rapid.SliceOfNDistinct(objRes, 1, 2, rapid.ID[string]).Draw(t, "resources")...)
 		if rapid.IntRange(0, 3).Draw(t, "no_bucket_res") == 0 {
